@@ -687,6 +687,10 @@ func c10R5(c *Ctx) {
 			c.R.Fail(r, "stopRunnablePipeline: worker stops", c.Pos(fn.Pos()), "no Worker.Stop call found")
 		}
 		c.Dominated(r, "stopRunnablePipeline: marker set before any worker is stopped", spawns, g, "intentionalStop.Store(true)")
+		// "armed" means "Worker.Stop set the flag": the flag has no other writer (a worker whose Do already
+		// returned must not look armed, or the marker of a stop issued during the back-off is cleared again)
+		stopF := c.Field(r, pFunnel, "Worker", "stop")
+		c.WhoMayWrite(r, "funnel.Worker.stop", stopF, []string{pFunnel + ".(*Worker).Stop", pFunnel + ".(*Worker).doTaskAttempt" /* the source-exhausted (io.EOF) arm arms the flag before tearing its own source down */}, func(m string) bool { return m == "Store" || m == "Swap" || m == "CompareAndSwap" })
 		// cleared only on the nothing-armed arm
 		gNone := kit.NewGates().AddEdges(kit.LenEdges(fn, nil, 0, 0), "len(armedSources)==0")
 		c.Dominated(r, "stopRunnablePipeline: marker cleared only when no worker was armed", setFalse, gNone, "the len(armedSources)==0 edge")
